@@ -554,6 +554,24 @@ func c03Cli(c *Case) {
 	}
 	var out lockedBuf
 	cmd.Stdout = &out
+	outLen, outString := out.Len, out.String
+	if c.Idx%4 == 1 {
+		// standard output redirected to a regular file (as in `jqawk ... > out.txt`): what is written is what the file holds
+		path := filepath.Join(c.env.Scratch, fmt.Sprintf("out-%d.txt", c.Idx))
+		if f, err := os.Create(path); err == nil {
+			defer os.Remove(path)
+			defer f.Close()
+			cmd.Stdout = f
+			outLen = func() int {
+				if st, err := os.Stat(path); err == nil {
+					return int(st.Size())
+				}
+				return 0
+			}
+			outString = func() string { b, _ := os.ReadFile(path); return string(b) }
+			c.Count("cli_streams_with_stdout_in_a_regular_file")
+		}
+	}
 	var errb bytes.Buffer
 	cmd.Stderr = &errb
 	if err := cmd.Start(); err != nil {
@@ -615,10 +633,10 @@ func c03Cli(c *Case) {
 				need = lens[i]
 			}
 		}
-		got := out.Len()
+		got := outLen()
 		if got < need {
 			time.Sleep(300 * time.Millisecond) // the writes are in the pipe; give our collector a moment
-			got = out.Len()
+			got = outLen()
 		}
 		c.Count("cli_quiescent_points_checked")
 		if got < need {
@@ -646,8 +664,8 @@ func c03Cli(c *Case) {
 		c.Violation("binary, stdin fed chunk by chunk: "+bad+" | stream "+describeBytes(data), nil, map[string]any{"stream": string(data)})
 		return
 	}
-	if (out.String() != full && !sameLinesOrderFree(full, out.String())) || cmd.ProcessState.ExitCode() != 0 {
-		c.Violation(fmt.Sprintf("binary on a clean stream: exit %d, stdout differs from the expected output of %d values: %s", cmd.ProcessState.ExitCode(), nv, diffAt(full, out.String())), nil, map[string]any{"stream": string(data), "stderr": errb.String()})
+	if (outString() != full && !sameLinesOrderFree(full, outString())) || cmd.ProcessState.ExitCode() != 0 {
+		c.Violation(fmt.Sprintf("binary on a clean stream: exit %d, stdout differs from the expected output of %d values: %s", cmd.ProcessState.ExitCode(), nv, diffAt(full, outString())), nil, map[string]any{"stream": string(data), "stderr": errb.String()})
 		return
 	}
 	c.Held()
